@@ -1312,14 +1312,14 @@ impl<const N: usize> std::io::Write for Sink<N> {
 macro_rules! limits_harness {
     ($name:ident, $l2:expr, $limit:expr, $b:expr, |$bb:ident, $w:ident, $p:ident| $write:expr) => {
         #[kani::proof]
-        #[kani::unwind(34)]
-        // the checksum helpers are replaced by the ideal accumulator (zero-tail variant: the payload is all zero), so that a
+        #[kani::unwind(3)]
+        // the checksum helpers are replaced by the ideal accumulator (loop-free variant: the payload is all zero), so that a
         // build that wrongly gets past the length checks runs to its end and fails the assertion below with a concrete input
         // instead of running into the unwinding bound of the 64 KiB checksum loop
         #[kani::stub(etherparse::checksum::u64_16bit_word::add_2bytes, ideal::add_2bytes)]
         #[kani::stub(etherparse::checksum::u64_16bit_word::add_4bytes, ideal::add_4bytes)]
         #[kani::stub(etherparse::checksum::u64_16bit_word::add_8bytes, ideal::add_8bytes)]
-        #[kani::stub(etherparse::checksum::u64_16bit_word::add_slice, crate::h_big::add_slice_zero_tail)]
+        #[kani::stub(etherparse::checksum::u64_16bit_word::add_slice, crate::h_big::add_slice_zero_or_short)]
         #[kani::stub(etherparse::checksum::u64_16bit_word::ones_complement, ideal::ones_complement)]
         fn $name() {
             let limit: usize = $limit;
